@@ -576,6 +576,7 @@ pub fn c19_sweep(_tier: Tier, idx: u32, nworkers: u32) -> SweepOut {
                     if k % nworkers != idx {
                         continue;
                     }
+                    sweep_note(&item_json(entry, elem, n, variant));
                     let o = run_item(entry, elem, n, variant);
                     if o == Outcome::NotApplicable {
                         continue;
